@@ -67,6 +67,7 @@ type Op struct {
 	Supi         string `json:"supi,omitempty"`
 	Sess         string `json:"sess,omitempty"`     // logical session name
 	RefMode      string `json:"ref_mode,omitempty"` // "" bound ref | unknown | foreign:<sess> | literal:<text>
+	Corrupt      string `json:"corrupt,omitempty"`  // the body is valid JSON but one member has the wrong JSON type: isn-string | ts-number | muu-object
 	Consumer     string `json:"consumer,omitempty"`
 	ChargingID   int32  `json:"charging_id,omitempty"`
 	Units        []Unit `json:"units,omitempty"`
